@@ -1,24 +1,46 @@
 (* Props/C18.v — property C18: prototype selection is batching-independent and maximises its stated objective.
    Only statements, each closed by [exact]; proofs live in C18/Proofs.v.
-
-   NOT PROVED (kept here as the full statements; both are TESTED on every generated case of the correspondence
-   check by [check_spec], evaluated with vm_compute, which is a test and not a theorem):
-
-   colmeans_triangular :
-     forall K n bs, symmetric K n -> length K = n -> 1 <= bs -> 1 <= n ->
-       col_means_table K bs n = table_of bs (dense_col_means K n) /\
-       diag_table K bs n = table_of bs (dense_diag K n).
-   greedy_batch_invariant :
-     forall obj updw K n bs np, symmetric K n -> length K = n -> 1 <= bs -> np <= n ->
-       map (flat_idx bs) (g_sel (run_greedy K bs n np obj updw (col_means_table K bs n) (diag_table K bs n)))
-       = dense_select obj K n np.
-   What IS proved of greedy_batch_invariant is its tie-breaking core, for every cut into batches
-   (C18_batched_argmax_is_dense, C18_batching_invariant_argmax, C18_argmax_reads_first_max): a per-batch first
-   arg-max replaced only by a strictly better later batch is the first arg-max of the whole candidate list.
-   Missing: the invariants linking the padded tables (mask_of_selected, samples_selection_kernel) to the dense
-   data of the unselected cases. *)
+   Everything DESIGN.md section 5 (C18) lists is proved: colmeans_triangular, greedy_batch_invariant (for any
+   objective of the family, any batch size), selected_distinct, mmd_objective_spec (+ ProtoGreedy), protodash_first,
+   weights_normalised, local_index_translation, prototypes_labels_indices.  [check_spec] (Spec.v) still evaluates
+   Model = Spec on every generated case as a regression test of the executable definitions.
+   Not covered by a theorem: that the batched KNN over the prototypes returns the k nearest (C16's subject);
+   exact_selection_weights_update=True (scipy SLSQP; unreachable through the public ProtoDash class). *)
 From Xpl Require Import C18.Spec C18.Proofs.
 Open Scope Qc_scope.
+
+(* 0a. triangular accumulation: for a symmetric kernel matrix and EVERY batch size, the (nb, b) tables built over the
+   lower block triangle (column sums + transposed row sums + diagonal blocks) are the row-major cut of the dense
+   column means and of the dense diagonal, zero padded *)
+Theorem C18_colmeans_triangular :
+  forall K n bs, symmetric K n -> (1 <= bs)%nat ->
+    col_means_table K bs n = table_of bs (dense_col_means K n) /\
+    diag_table K bs n = table_of bs (dense_diag K n).
+Proof. exact colmeans_triangular. Qed.
+Print Assumptions C18_colmeans_triangular.
+
+(* 0b. batching independence of the whole selection: for EVERY batch size, number of prototypes, weight update and
+   ANY objective that is a function of the candidate's diagonal value, column mean, kernel row to the selection
+   (and the selection's own col means / kernel), the dataset positions selected by the batched model are the dense
+   greedy selection with first-index tie-breaking computed from the full kernel matrix *)
+Theorem C18_greedy_batch_invariant :
+  forall obj updw K n bs np, symmetric K n -> (1 <= bs)%nat ->
+    map (flat_idx bs) (g_sel (run_greedy K bs n np obj updw (col_means_table K bs n) (diag_table K bs n)))
+    = dense_select obj K n np.
+Proof. exact greedy_batch_invariant. Qed.
+Print Assumptions C18_greedy_batch_invariant.
+
+Theorem C18_prototypes_batch_invariant :
+  forall m eps K bs np, symmetric K (length K) -> (1 <= bs)%nat ->
+    map (flat_idx bs) (fst (find_prototypes m eps K bs np)) = dense_select (method_obj eps m) K (length K) np.
+Proof. exact prototypes_batch_invariant. Qed.
+Print Assumptions C18_prototypes_batch_invariant.
+
+Theorem C18_selection_batch_independent :
+  forall m eps K bs bs' np, symmetric K (length K) -> (1 <= bs)%nat -> (1 <= bs')%nat ->
+    map (flat_idx bs) (fst (find_prototypes m eps K bs np)) = map (flat_idx bs') (fst (find_prototypes m eps K bs' np)).
+Proof. exact selection_batch_independent. Qed.
+Print Assumptions C18_selection_batch_independent.
 
 (* 1. weights: non-negative and summing to one, for the three methods, every kernel matrix, batch size and number
    of prototypes, as soon as one un-normalised weight is positive (otherwise the code divides by zero) *)
